@@ -52,6 +52,7 @@ following data::
 
 import copy
 import logging
+import os
 from typing import Any, Callable, List, Mapping, Optional, Set, Union, cast
 
 from penman.epigraph import Epidatum
@@ -65,6 +66,17 @@ from penman.types import BasicTriple, Branch, Node, Role, Variable
 logger = logging.getLogger(__name__)
 
 _default_model = Model()
+
+# Verification hook (off unless the environment variable PENMAN_VERIF is set):
+# records the decisions of configure() so that they can be validated against a
+# specification of the algorithm. It never influences the result.
+_verif_events = [] if os.environ.get('PENMAN_VERIF') else None
+
+
+def _verif_emit(*event):
+    if _verif_events is not None:
+        _verif_events.append(event)
+
 
 _Nodemap = Mapping[Variable, Union[Node, None]]
 
@@ -282,10 +294,12 @@ def configure(
         _skipped, var, data = _find_next(data, nodemap)
         skipped.extend(_skipped)
         data_count = len(data)
+        _verif_emit('find', var, data_count)
         if var is None or data_count == 0:
             raise LayoutError('possibly disconnected graph')
 
         _, surprising = _configure_node(var, data, nodemap, model)
+        _verif_emit('round', len(data), data_count, surprising)
 
         if len(data) == data_count and surprising:
             skipped.insert(0, data.pop())
@@ -298,6 +312,7 @@ def configure(
         # remove any superfluous POPs
         while data and isinstance(data[-1], Pop):
             data.pop()
+    _verif_emit('end', len(skipped))
     if skipped:
         raise LayoutError('incomplete configuration')
 
@@ -383,6 +398,7 @@ def _configure_node(var, data, nodemap, model):
     # Something is 'surprising' when a triple doesn't predictably fit
     # given the current state
     surprising = False
+    _verif_emit('enter', var, len(data))
 
     while data:
         datum = data.pop()
@@ -419,6 +435,7 @@ def _configure_node(var, data, nodemap, model):
                 nodemap[target] = node  # site of potential node context
             edges.append((role, target, epis))
 
+    _verif_emit('leave', var, surprising, len(data))
     return node, surprising
 
 
